@@ -168,7 +168,7 @@ func newC16Universe(k int, special int) *c16Universe {
 		delete(m, "eat-profile")
 		m["Eat-Profile"] = refmodel.P2Name
 		m["EAT-PROFILE"] = "http://unknown.example/psa"
-		m["eat-Profile"] = refmodel.P1Name
+		m["eat-Profile"] = "http://another.example/psa"
 		j, _ = json.Marshal(m)
 		u.names = append(u.names, "case-variants")
 		u.tokens["case-variants"] = [2][]byte{c, j}
